@@ -51,7 +51,7 @@ def inventory(ctx):
 def run(ctx):
     ctx.rule = ("(a) in-process conversion of wild units of all 7 types (all keys x adversarial values, references, templates) and unit sets, and every single-separator damage (dropped, doubled, replaced, text beside it cut) of well-formed structured values of 60 keys; (b) byte-level mutations of the repository's example "
                 "files (tests/cases); (c) the real binary on trees with adversarial file names (non-UTF-8, leading '@', no stem, 255 bytes, newline) and non-UTF-8 directory names, directories named like units, invalid UTF-8 contents, "
-                "NUL bytes, [Install] sections with odd aliases; a panic is a PANIC line of the driver, exit status 101/134, a signal, or a timeout; non-trivial = every case; distinct = distinct inputs")
+                "NUL bytes, [Install] sections with odd aliases; (d) the enablement step alone on [Install] sections of every kind (words that normalise to nothing, climb out, are absolute, end in a separator; templates with and without DefaultInstance); a panic is a PANIC line of the driver, exit status 101/134, a signal, or a timeout; non-trivial = every case; distinct = distinct inputs")
     rng = ctx.rng
     # (a) + (b) in-process
     cases, meta = [], []
@@ -113,7 +113,27 @@ def run(ctx):
                 "[Kube]\nYaml=/\nSetWorkingDirectory=yaml\n", "[Build]\nImageTag=t\nFile=\\x01\nSetWorkingDirectory=file\n", "[Volume]\n", "[Pod]\n", "[Container]\nImage=x.image\n",
                 "[Container]\nImage=img\nPod=@.pod\n", "", "[", "[Container]\nImage=img\nMount=type=bind,\"src=/a\",dst=/b\n", "[Container]\nImage=img\nMount=\"type=bind,source=/a\nb,dst=/b\"\n"]
     n = ctx.volume(60, 600)
+    from props import C12 as c12
+    for _ in range(6):
+        contents.append("[Container]\nImage=img\n[Install]\n" + "".join("%s=%s\n" % e for e in c12.gen_install(rng)))
+    contents += ["[Container]\nImage=img\n[Install]\nAlias=.\n", "[Container]\nImage=img\n[Install]\nAlias=a/..\nWantedBy=x.target\n", "[Volume]\n[Install]\nAlias=\"\"\n"]
     with e2e.Box() as box:
+        # the enablement step alone: [Install] sections with every kind of word (C12's generator), real enable_service_file under catch_unwind
+        ecases, emeta = [], []
+        for i in range(ctx.volume(400, 5000)):
+            inst = c12.gen_install(rng)
+            svcfile = rng.choice(["web.service", "tpl@.service", "tpl@one.service", "a b.service", "x@@y.service"])
+            d = box.path("en%d" % i)
+            os.makedirs(os.path.join(d, "out"))
+            open(os.path.join(d, "out", svcfile), "w").write("[Service]\n")
+            text = "[Install]\n" + "".join("%s=%s\n" % e for e in inst)
+            ecases.append(case_line("enable", os.path.join(d, "out"), svcfile, text)); emeta.append((svcfile, inst))
+        for (svcfile, inst), o in zip(emeta, vlib.run_impl(ecases)):
+            ctx.evaluations += 1
+            ctx.nontrivial.add(("enable", svcfile, str(inst)))
+            ctx.count("enable:" + ("panic" if o.startswith("PANIC") else "ok"))
+            if o.startswith("PANIC") or o.startswith("DIED"):
+                ctx.failures.append({"op": "enable", "svc": svcfile, "install": inst, "what": "enable_service_file panics on [Install] %s of %s: %s" % (inst, svcfile, show(unhx(o.split("\t")[1])) if "\t" in o else o), "class": None})
         for i in range(n):
             root = os.fsencode(box.path(str(i)))
             os.makedirs(os.path.join(root, b"u"))
